@@ -531,7 +531,7 @@ class NPProxy:
         return _np.any(_defloat(a), axis=axis, **k)
 
     def isclose(self, a, b, rtol=1e-5, atol=1e-8, **k):
-        if has_sym(a) or has_sym(b):
+        if has_sym(a) or has_sym(b) or isinstance(atol, Sym):
             aa, bb = _np.broadcast_arrays(_np.asarray(a, dtype=object), _np.asarray(b, dtype=object))
             if aa.ndim == 0:
                 return _isclose1(aa[()], bb[()], rtol, atol)
@@ -542,7 +542,7 @@ class NPProxy:
         return _np.isclose(_defloat(a), _defloat(b), rtol=rtol, atol=atol, **k)
 
     def allclose(self, a, b, rtol=1e-5, atol=1e-8, **k):
-        if has_sym(a) or has_sym(b):
+        if has_sym(a) or has_sym(b) or isinstance(atol, Sym):
             r = self.isclose(a, b, rtol, atol)
             if isinstance(r, SymBool):
                 return r
